@@ -2695,7 +2695,9 @@ func (v *Varchar) IsNull() bool {
 }
 
 func (v *Varchar) String() string {
-	return fmt.Sprintf("'%s'", v.val)
+	// the text is parsed again (CHECK constraints and column defaults are
+	// stored as text): a quote inside the literal must stay escaped
+	return fmt.Sprintf("'%s'", strings.ReplaceAll(v.val, "'", "''"))
 }
 
 func (v *Varchar) inferType(cols map[string]ColDescriptor, params map[string]SQLValueType, implicitTable string) (SQLValueType, error) {
